@@ -922,32 +922,176 @@ def run_client(ctx, real):
 
 
 # ---------------------------------------------------------------------------
-# sender side of the log channel: TwistedHandler on SocketHandler
+# sender side of the log channel: TwistedHandler on SocketHandler, composed with
+# a LogSink per connection (Model/LogSend.v, tools/harness/drive_logsend.py)
 # ---------------------------------------------------------------------------
+def ls_alias(i):
+    """short, pairwise different payload of record i (small scope; lengths 2..5,
+    zero bytes included so that payloads look like headers)"""
+    i %= 65536
+    return bytes([i // 256, i % 256] + [0, 0xAA, i % 7][: i % 4]).hex()
+
+
+def ls_ids(c):
+    return ([e[2] for e in c['events'] if e[0] == 'emit']
+            + [i for a in c['env'] for i in a[0]] + [a[2] for a in c['env']])
+
+
+def ls_case(events, env, sends=(), ticks=(), net=(), within=False, real=False):
+    c = {'within': within, 'events': [list(e) for e in events], 'env': [list(a) for a in env],
+         'sends': list(sends), 'ticks': list(ticks), 'net': [list(n) for n in net], 'alias': {}}
+    if not real:
+        c['alias'] = {str(i): ls_alias(i) for i in ls_ids(c) + [-1]}
+    return c
+
+
 def logsend_cases(ctx):
     rng = random.Random('%s:C14:logsend' % ctx.seed)
+    E, C = 'emit', 'close'
     cases = [
-        {'events': [[10, 1, False], [11, 2, False]], 'env': [[[100, 101], True]], 'cuts': [3, 7]},
-        {'events': [[10, 1, False], [200, 2, False], [400, 3, False]], 'env': [[[100], False], [[], True]], 'cuts': []},
-        {'events': [[10, 1, False], [11, 2, True], [12, 3, False], [13, 4, False]],
-         'env': [[[], True], [[7], True]], 'cuts': [1] * 40},
-        {'events': [[5, 1, False], [6, 2, True], [7, 3, False], [8, 4, False], [9, 5, False]],
-         'env': [[[50], True], [[51, 52], False], [[], True]], 'cuts': [9, 9]},
-        {'events': [[1, 1, False], [2, 2, False]], 'env': [], 'cuts': []},
+        # a connection that stays up, bytes cut inside headers and payloads
+        ls_case([(E, 0, 1), (E, 1, 2), (E, 1, 3)], [([], 0, 900)], net=[(0, [3, 7, 1, 1])]),
+        ls_case([(E, 0, 1), (E, 1, 2), (E, 1, 3)], [([], 0, 900)], net=[(0, [1] * 30)], real=True),
+        # records logged during the handshake
+        ls_case([(E, 0, 1), (E, 1, 2)], [([100, 101], 0, 900)], net=[(0, [5, 5])]),
+        ls_case([(E, 0, 1)], [([100, 101], 0, 900)]),
+        # a send breaks after 3 bytes, the next record reconnects
+        ls_case([(E, 0, 1), (E, 1, 2), (E, 1, 3)], [([], 0, 900), ([], 0, 901)], sends=[-1, 3],
+                net=[(0, [2, 5]), (0, [])]),
+        ls_case([(E, 0, 1), (E, 1, 2), (E, 1, 3)], [([], 0, 900), ([], 0, 901)], sends=[-1, 0], real=True),
+        # part of what was accepted never arrives
+        ls_case([(E, 0, 1), (E, 1, 2), (C, 2)], [([], 0, 900)], net=[(3, [4])]),
+        ls_case([(E, 0, 1), (E, 1, 2), (C, 2), (E, 3, 3)], [([], 0, 900), ([100], 0, 901)], net=[(7, []), (0, [1])]),
+        # refused: stuck
+        ls_case([(E, 0, 1), (E, 5, 2), (E, 100, 3)], [([], 1, 900), ([], 0, 901)]),
+        ls_case([(E, 0, 1), (E, 5, 2), (E, 100, 3)], [([100], 2, 900), ([], 0, 901)]),
+        ls_case([(E, 0, 1), (E, 5, 2)], []),
+        # back-off inside one flush
+        ls_case([(E, 0, 1), (E, 1, 2)], [([100, 101, 102, 103, 104, 105], 0, 900), ([], 1, 901), ([], 1, 902),
+                                         ([106], 1, 903), ([], 0, 904)],
+                sends=[-1, 2], ticks=[0, 0, 0, 2, 1, 5, 1, 40]),
+        ls_case([(E, 0, 1), (E, 1, 2)], [(list(range(100, 112)), 0, 900)] + [([], 1, 901 + k) for k in range(8)],
+                sends=[-1, 2], ticks=[0, 0] + [70] * 9),
+        # in the process of the log server
+        ls_case([(E, 0, 1), (E, 1, 2), (C, 2)], [([], 0, 900)], within=True),
     ]
-    for _ in range(ctx.n(150, 2500)):
-        t, evs = 0, []
-        for i in range(rng.randint(2, 12)):
+    for k in range(ctx.n(170, 2500)):
+        fam = rng.choice(['mixed', 'mixed', 'mixed', 'backoff', 'up'])
+        real = k < ctx.n(5, 40)
+        nid, env, evs, t = 100, [], [], 0
+        n_ev = rng.randint(2, 5 if real else 12)
+        rid = 0
+        for _ in range(n_ev):
             t += rng.choice([0, 1, 1, 2, 5, 40])
-            evs.append([t, i + 1, rng.random() < 0.15])
-        env, nid = [], 100
-        for _a in range(rng.randint(0, 5)):
-            nested = list(range(nid, nid + rng.choice([0, 0, 1, 2, 3])))
-            nid += len(nested)
-            env.append([nested, rng.random() < 0.7])
-        cases.append({'events': evs, 'env': env,
-                      'cuts': [rng.randint(1, 60) for _ in range(rng.choice([0, 1, 3, 10, 40]))]})
+            if fam != 'up' and rng.random() < 0.07:
+                evs.append((C, t))
+            else:
+                rid += 1
+                evs.append((E, t, rid))
+        for a in range(rng.randint(1, 6)):
+            if fam == 'backoff' and a == 0:
+                nn = rng.randint(3, 8)
+            else:
+                nn = rng.choice([0, 0, 0, 1, 2, 3])
+            if real:
+                nn = min(nn, 1)
+            nested = list(range(nid, nid + nn))
+            nid += nn
+            if fam == 'up' or (a == 0 and rng.random() < 0.85):
+                res = 0
+            elif fam == 'backoff':
+                res = rng.choice([1, 1, 1, 0, 2])
+            else:
+                res = rng.choice([0, 0, 0, 0, 1, 1, 2])
+            env.append((nested, res, 900 + a))
+        if fam == 'up':
+            sends = []
+        elif fam == 'backoff':
+            sends = [-1, rng.randint(0, 9)] + [rng.choice([-1, -1, -1, 3]) for _ in range(rng.randint(0, 6))]
+        else:
+            sends = [-1 if rng.random() < 0.8 else rng.randint(0, 12) for _ in range(rng.randint(0, 12))]
+        ticks = [rng.choice([0, 0, 0, 1, 1, 2, 3, 5, 40]) for _ in range(rng.choice([0, 0, 3, 8, 14]))]
+        net = []
+        for _ in env:
+            lose = rng.choice([0, 0, 0, 1, 2, 3, 5, 9]) if fam != 'up' else 0
+            cuts = [rng.randint(1, 9) for _ in range(rng.choice([0, 1, 3, 12, 30]))]
+            if real:
+                cuts = [rng.choice([1, 2, 3, 4, 5, 100, 560, 563, 564, 565, 568, 569])
+                        for _ in range(rng.choice([0, 2, 6]))]
+            net.append((lose, cuts))
+        cases.append(ls_case(evs, env, sends, ticks, net, within=rng.random() < 0.04, real=real))
     return cases
+
+
+def ls_parse(data):
+    """independent parse of a byte string: complete frames' payloads and the rest"""
+    out, pos = [], 0
+    while len(data) - pos >= 4:
+        n = struct.unpack('>I', data[pos:pos + 4])[0]
+        if len(data) - pos - 4 < n:
+            break
+        out.append(data[pos + 4:pos + 4 + n])
+        pos += 4 + n
+    return out, data[pos:]
+
+
+def ls_num(x):
+    if x is None:
+        return -1
+    if type(x) is float and x == int(x):
+        return int(x)
+    return x
+
+
+def logsend_oracle(ctx, c, o):
+    """the sender-side claims on the implementation's own observations"""
+    rep = {'source': 'oracle', 'logsend_case': c, 'observed': o}
+    ids = ls_ids(c) + [-1]
+    pay = {bytes.fromhex(h): int(k) for k, h in o['payloads'].items()}
+    if len(pay) != len(o['payloads']):
+        ctx.broken('log sender study: two records with the same payload', repr(c), rep)
+        return
+    if o['during_connect']:
+        ctx.violation('log-write-during-handshake', {'chan': 'log'},
+                      'a log frame was written to the socket while security.connect was in progress', rep)
+        return
+    seen = []
+    for k, (w, sk) in enumerate(zip(o['wires'], o['sinks'])):
+        data = bytes.fromhex(w['bytes'])
+        frames, torn = ls_parse(data)
+        fids = [pay.get(p) for p in frames]
+        if fids != w['ids'] or (torn and not w['closed']):
+            ctx.violation('log-sender-frame', {'chan': 'log'},
+                          'connection %d: bytes written %s parse to records %s + %d stray bytes; records handed '
+                          'to sendall %s; connection %s' % (k, w['bytes'][:80], fids, len(torn), w['ids'],
+                                                            'closed' if w['closed'] else 'up'), rep)
+            return
+        lose, cuts = c['net'][k] if k < len(c['net']) else (0, [])
+        arrived, _ = ls_parse(data[:max(0, len(data) - lose)])
+        want = [pay.get(p) for p in arrived]
+        if sk['got'] != want or sk['exc']:
+            ctx.violation('log-sender-receiver', {'chan': 'log'},
+                          'connection %d: LogSink handled %s (%s), the bytes that arrived hold exactly the '
+                          'records %s (sent: %s, lost bytes %d, chunks %s)'
+                          % (k, sk['got'], sk['exc'], want, w['ids'], lose, cuts), rep)
+            return
+        seen += w['ids']
+    last = o['steps'][-1] if o['steps'] else {'q': [], 'local': []}
+    places = seen + last['q'] + last['local']
+    if len(set(places)) != len(places) or not set(places) <= set(ids):
+        ctx.violation('log-sender-duplicate', {'chan': 'log'},
+                      'records on the wire %s, queued %s, local %s; emitted %s' % (seen, last['q'], last['local'], ids), rep)
+        return
+    prev = {'sock': False, 'shaking': False, 'q': [], 'cur_ids': [], 'nclosed': 0}
+    for e, s in zip(c['events'], o['steps']):
+        if (e[0] == 'emit' and not c['within'] and prev['sock'] and not prev['shaking'] and s['sock']
+                and s['nclosed'] == prev['nclosed']):
+            if s['cur_ids'] != prev['cur_ids'] + prev['q'] + [e[2]] or s['q']:
+                ctx.violation('log-sender-order', {'chan': 'log'},
+                              'connected handler: emit %d put %s on the wire (before: %s, queued %s), queue now %s'
+                              % (e[2], s['cur_ids'], prev['cur_ids'], prev['q'], s['q']), rep)
+                return
+        prev = s
 
 
 def run_logsend(ctx):
@@ -955,59 +1099,90 @@ def run_logsend(ctx):
     impl = ctx.harness('drive_logsend.py', {'cases': cases})['cases']
     ctx.log('log sender: implementation ran %d histories' % len(cases))
     stuck = recoverable = 0
+    hist = {'broken-send': 0, 'refused': 0, 'other-exception': 0, 'nested': 0, 'close': 0, 'bytes-lost': 0,
+            'real-pickles': 0, 'within': 0, 'second-attempt-after-back-off': 0}
     for c, o in zip(cases, impl):
-        rep = {'source': 'oracle', 'logsend_case': c, 'observed': o}
-        emitted = [e[1] for e in c['events']] + [i for n, _ in c['env'] for i in n]
-        wire = o['steps'][-1]['wire'] if o['steps'] else []
-        if o['during_connect']:
-            ctx.violation('log-write-during-handshake', {'chan': 'log'},
-                          'a log frame was written to the socket while security.connect was in progress', rep)
-        if o['sink'] != wire:
-            ctx.violation('log-sender-receiver-format', {'chan': 'log'},
-                          'LogSink handled %s but the sender wrote %s' % (o['sink'], wire), rep)
-        if len(set(wire)) != len(wire) or not set(wire) <= set(emitted):
-            ctx.violation('log-sender-duplicate', {'chan': 'log'}, 'wire %s, emitted %s' % (wire, emitted), rep)
-        prev = {'sock': False, 'shaking': False, 'q': [], 'wire': []}
-        for (t, r, brk), s in zip(c['events'], o['steps']):
-            if prev['sock'] and not prev['shaking'] and not brk:
-                if s['wire'] != prev['wire'] + prev['q'] + [r] or s['q']:
-                    ctx.violation('log-sender-order', {'chan': 'log'},
-                                  'connected handler: emit %d gave wire %s (before %s, queued %s)'
-                                  % (r, s['wire'], prev['wire'], prev['q']), rep)
-                    break
-            prev = s
+        if o['handler_class'] != ['dawgie.pl.logger.TwistedHandler', 'logging.handlers.SocketHandler']:
+            ctx.broken('log sender study: TwistedHandler is no longer a direct SocketHandler subclass',
+                       repr(o['handler_class']), {'source': 'correspondence'})
+            return
+        if ctx.nviol == 0:
+            logsend_oracle(ctx, c, o)
+        used = c['env'][:len(c['env']) - o['left_env']]
+        hist['broken-send'] += any(j >= 0 for j in c['sends'][:len(c['sends']) - o['left_sends']])
+        hist['refused'] += any(a[1] == 1 for a in used)
+        hist['other-exception'] += any(a[1] == 2 for a in used)
+        hist['nested'] += any(a[0] for a in used)
+        hist['close'] += any(e[0] == 'close' for e in c['events'])
+        hist['bytes-lost'] += any(n[0] > 0 for n in c['net'][:len(o['wires'])])
+        hist['real-pickles'] += not c['alias']
+        hist['within'] += c['within']
+        hist['second-attempt-after-back-off'] += sum(1 for a in used if a[1] == 1) >= 2
         if o['steps'] and o['steps'][-1]['shaking']:
             stuck += 1
-            if any(ok for _, ok in c['env'][len(c['env']) - o['left_env']:]):
+            if any(a[1] == 0 for a in c['env'][len(c['env']) - o['left_env']:]):
                 recoverable += 1
+    ctx.note('logsend_histories_by_feature', hist)
     ctx.note('observation_log_sender_stuck_after_failed_connect',
              'NOT a claim of C14: TwistedHandler.makeSocket leaves __shaking set when security.connect raises; '
-             'from then on every record is queued, none is sent, no reconnect is attempted '
-             '(LS_stuck_forever / C14_log_sender_recovers_refuted). %d of %d histories end stuck, %d of them '
+             'from then on every record is queued in memory, none is sent and no reconnect is attempted '
+             '(C14_log_sender_stuck / C14_log_sender_recovers_refuted). %d of %d histories end stuck, %d of them '
              'with a successful connection still available' % (stuck, len(cases), recoverable))
     exprs = []
-    for c in cases:
-        evs = '[' + ';'.join('(%d, %d, %s)' % (t, r, 'true' if b else 'false') for t, r, b in c['events']) + ']'
-        env = ('[' + ';'.join('(%s, %s)' % (zl(n) if n else '(@nil Z)', 'true' if ok else 'false')
-                              for n, ok in c['env']) + ']') if c['env'] else '(@nil (list Z * bool))'
-        exprs.append('obs_htrace %s %s' % (evs, env))
-    batched = ['[' + '; '.join(exprs[i:i + 50]) + ']' for i in range(0, len(exprs), 50)]
-    res = [x for b in ctx.coq_eval(['DV.Model.LogSend'], batched, chunk=6) for x in b]
+    for c, o in zip(cases, impl):
+        tbl = dict(o['payloads'])
+        evs = '[' + '; '.join('LEmit %d %d' % (e[1], e[2]) if e[0] == 'emit' else 'LClose %d' % e[1]
+                              for e in c['events']) + ']'
+        env = ('[' + '; '.join('mkLA %s %d (%d)' % (zl(a[0]) if a[0] else '(@nil Z)', a[1], a[2])
+                               for a in c['env']) + ']') if c['env'] else '(@nil ls_attempt)'
+        tb = ('[' + '; '.join('((%d), %s)' % (int(k), zl(bytes.fromhex(h)) if h else '(@nil Z)')
+                              for k, h in sorted(tbl.items(), key=lambda kv: int(kv[0]))) + ']') \
+            if tbl else '(@nil (Z * list Z))'
+        net = ('[' + '; '.join('(%d, %s)' % (n[0], zl(n[1]) if n[1] else '(@nil Z)') for n in c['net']) + ']') \
+            if c['net'] else '(@nil (Z * list Z))'
+        exprs.append('ls_history %s %s %s %s %s %s %s'
+                     % (tb, 'true' if c['within'] else 'false',
+                        zl(c['ticks']) if c['ticks'] else '(@nil Z)', env,
+                        '[' + '; '.join('(%d)' % j for j in c['sends']) + ']' if c['sends'] else '(@nil Z)',
+                        evs, net))
+    batched = ['[' + '; '.join(exprs[i:i + 25]) + ']' for i in range(0, len(exprs), 25)]
+    res = [x for b in ctx.coq_eval(['DV.Model.LogSend'], batched, chunk=3) for x in b]
     mism = None
     keys = []
     for c, o, m in zip(cases, impl, res):
-        io = [(s['sock'], s['shaking'], s['q'], s['wire'], s['retry'], s['period']) for s in o['steps']]
-        mo = [(a, b, list(q), list(w), rt, p) for a, b, q, w, rt, p in m]
-        if io != mo and mism is None:
-            mism = (c, io, mo)
-        if any(n for n, _ in c['env']) or any(not ok for _, ok in c['env']) or any(b for _, _, b in c['events']):
-            keys.append(('logsend', c['events'], c['env']))
+        pay = {bytes.fromhex(h): int(k) for k, h in o['payloads'].items()}
+        io_steps = [(s['sock'], s['shaking'], s['q'], (ls_num(s['retry']), ls_num(s['period'])),
+                     ((s['cur_ids'], s['cur_len']), s['nclosed'], s['local'], s['now'])) for s in o['steps']]
+        mo_steps = [(a, b, list(q), tuple(rt), ((list(ci), cl), ncl, list(loc), now))
+                    for a, b, q, rt, (ci, cl, ncl, loc, now) in m[0]]   # Coq prints ((a, b), c) as (a, b, c)
+        wires, sinks, dropped, left = m[1]
+        io_fin = ([(w['ids'], list(bytes.fromhex(w['bytes']))) for w in o['wires']],
+                  [s['got'] for s in o['sinks']], (o['left_env'], o['left_sends']))
+        mo_fin = ([(list(i), list(b)) for i, b in wires],
+                  [[pay.get(bytes(p), ('?', list(p))) for p in s] for s in sinks], tuple(left))
+        last = o['steps'][-1] if o['steps'] else {'q': [], 'local': []}
+        consumed = ([e[2] for e in c['events'] if e[0] == 'emit']
+                    + [i for a in c['env'][:len(c['env']) - o['left_env']] for i in a[0]]
+                    + [a[2] for a in c['env'][:len(c['env']) - o['left_env']] if a[1] != 0])
+        placed = [i for w in o['wires'] for i in w['ids']] + last['q'] + last['local']
+        gone = sorted(i for i in consumed if i not in placed)
+        if (io_steps != mo_steps or io_fin != mo_fin) and mism is None:
+            mism = (c, (io_steps, io_fin), (mo_steps, mo_fin))
+        elif mism is None and sorted(dropped) != gone and -1 not in placed + gone:
+            mism = (c, ('records emitted and nowhere', gone), ('dropped', sorted(dropped)))
+        if (c['sends'] or any(a[0] or a[1] for a in c['env']) or any(n[0] or n[1] for n in c['net'])
+                or any(e[0] == 'close' for e in c['events'])):
+            keys.append(('logsend', json.dumps(c, sort_keys=True)))
     ctx.count(evaluations=len(cases), nontrivial_keys=keys)
+    ctx.sample({'logsend_case': {k: v for k, v in cases[4].items() if k != 'alias'},
+                'steps': impl[4]['steps'][-1], 'wires': [w['ids'] for w in impl[4]['wires']],
+                'sinks': [s['got'] for s in impl[4]['sinks']]})
     if mism and ctx.nviol == 0:
         c, io, mo = mism
-        ctx.broken('correspondence LogSend.v vs TwistedHandler',
-                   'case %s\nimplementation: %s\nmodel: %s' % (c, io, mo),
-                   {'source': 'correspondence', 'logsend_case': c, 'expected': repr(mo), 'observed': repr(io)})
+        ctx.broken('correspondence LogSend.v vs TwistedHandler/SocketHandler (+ LogSink per connection)',
+                   'case %s\nimplementation: %s\nmodel: %s' % ({k: v for k, v in c.items() if k != 'alias'}, io, mo),
+                   {'source': 'correspondence', 'logsend_case': c, 'expected': repr(mo)[:4000],
+                    'observed': repr(io)[:4000]})
 
 
 def replay(ctx):
@@ -1075,6 +1250,8 @@ def run(ctx):
         ctx.quick = False
     if ctx.replay:
         return replay(ctx)
+    if os.environ.get('C14_ONLY') == 'logsend':     # development aid: the sender study alone
+        return run_logsend(ctx)
     r = ctx.coq_props()
     real = real_payloads(ctx)
     run_framing(ctx, real)
@@ -1082,9 +1259,7 @@ def run(ctx):
         run_big(ctx)
     run_handshake(ctx, real)
     run_client(ctx, real)
-    if (os.path.exists(os.path.join(core.VERIF, 'tools/harness/drive_logsend.py'))
-            and os.path.exists(os.path.join(core.COQ, 'Model/LogSend.v'))):
-        run_logsend(ctx)
+    run_logsend(ctx)
     if not r['ok']:
         ctx.broken('theorem/file %s' % r['failing'], r['log'],
                    {'source': 'proof', 'theorem': r['failing']})
